@@ -70,9 +70,12 @@ Proof. vm_compute. split; reflexivity. Qed.
        operands: (1,2) + (10,20)).  compileCallInternal compiles an operand inline (empty body: load v; a single
        instruction that owns no variable: push c / load v; X, X possibly a call of a user function) or as a
        function definition (jump over it; opscope id nvars 0; body; opret) called through load v; pushpc; callpc;
-     - definitions and calls of parameterless functions, `def f: body; rest`, recursion included; a function body
-       sees the variables and functions visible at its definition (lexical scoping: later rebinding of a name does
-       not affect it) but, in this model, no label around the definition.
+     - definitions and calls of functions, `def f: body; rest` and `def f(g; h): body; rest` with filter parameters
+       (`$x` parameters are modelled in VM.v/Den.v but excluded from Compile.comp, hence from the theorem), recursion
+       included; a function body sees the variables and functions visible at its definition (lexical scoping: later
+       rebinding of a name does not affect it), an argument `a` of `f(a)` is a closure over the environment of the
+       call (pushpc captures the scope index; calling the parameter enters it with that index); in this model
+       neither a function body nor an argument of a user-defined function sees a label around it.
    The VM (c01vm2/VM.v) has scope frames {id, offset, pc, saveindex, outerindex}, env.index walking the outer
    chain, opscope/opret with popscope's `free` test (stated at list level with a ghost push counter, see the
    header of VM.v; coq/vm/StackProofs.v Stack_refines is the array-level refinement), env.offset and the growth
@@ -127,4 +130,20 @@ Example C01vm_functions_nonvacuous :
   option_map (fun c => fst (c01vm2.VM.run c01vm2.Natives.cnat c 2000 (c01vm2.VM.init c v))) (c01vm2.Compile.compile_raw q)
     = Some (map c01vm2.Syntax.VNum [11; 12; 21; 22; 102; 3])%Z /\
   c01vm2.Den.den c01vm2.Natives.cnat 10 q [] v = (map c01vm2.Syntax.VNum [11; 12; 21; 22; 102; 3]%Z, None).
+Proof. vm_compute. split; reflexivity. Qed.
+
+(* filter parameters are closures over the environment of the call:
+   5 as $x | def f(g): (9 as $x | g) , (g | g); f($x + .)   on 1  gives 6 (not 10) and (6 | 5 + .) = 11 *)
+Example C01vm_params_nonvacuous :
+  let num z := c01vm2.Syntax.QConst (c01vm2.Syntax.VNum z) in
+  let add := c01vm2.Syntax.QBinop c01vm2.Syntax.OAdd in
+  let g := c01vm2.Syntax.QCallF 20%N [] in
+  let q := c01vm2.Syntax.QBind (num 5%Z) 0%N
+             (c01vm2.Syntax.QDef 7%N [c01vm2.Syntax.PF 20%N]
+                (c01vm2.Syntax.QComma (c01vm2.Syntax.QBind (num 9%Z) 0%N g) (c01vm2.Syntax.QPipe g g))
+                (c01vm2.Syntax.QCallF 7%N [add (c01vm2.Syntax.QVar 0%N) c01vm2.Syntax.QId])) in
+  let v := c01vm2.Syntax.VNum 1 in
+  option_map (fun c => fst (c01vm2.VM.run c01vm2.Natives.cnat c 2000 (c01vm2.VM.init c v))) (c01vm2.Compile.compile_raw q)
+    = Some (map c01vm2.Syntax.VNum [6; 11])%Z /\
+  c01vm2.Den.den c01vm2.Natives.cnat 10 q [] v = (map c01vm2.Syntax.VNum [6; 11]%Z, None).
 Proof. vm_compute. split; reflexivity. Qed.
